@@ -97,7 +97,28 @@ RULES["C16"] = ("hierarchical DAG benches (sub-models to depth 3) whose init scr
 sim_plan("C16", ["dag"], miri_parts=["dag"])
 LEVEL["C18"] = "exploration"
 RULES["C18"] = ("timer benches with a recording scripted clock; sequence of Clock::synchronize times per call compared with the reference interpreter; each synchronize(t) stamped after all "
-                "handlers of earlier times and before any handler of t; initial synchronize before any init; non-trivial = more than one synchronisation")
-sim_plan("C18", ["timer"])
+                "handlers of earlier times and before any handler of t; initial synchronize before any init; part faults: scripted OutOfSync(lag) answers at random synchronisation indices x tolerances "
+                "{none, 0, 1us, 2s, 10s}: a lag above tolerance must fail the enclosing call with OutOfSync(lag) and stop all model code, lags within tolerance or without tolerance are ignored; "
+                "non-trivial = more than one synchronisation (timer) / a lag was answered (faults)")
+sim_plan("C18", ["timer", "faults"])
 for _p in ("C01", "C03", "C04", "C05", "C06", "C07", "C09", "C10", "C16", "C18"):
     PLAN[_p]["assumptions"] = COMMON_ASSUMPTIONS
+
+LEVEL["C08"] = "exploration"
+RULES["C08"] = ("grid: timer benches with past/present/future deadlines and zero periods on every API path (Scheduler::schedule*, Context::schedule*, Scheduler::schedule with EventSource actions), "
+                "results and firings compared with the reference interpreter, pull bound per stepping call; threads: 1-4 threads scheduling through cloned Scheduler handles at deadlines within "
+                "-1..+3 ns of the advancing time while the main thread steps, with delays injected after the queue lock / after the time write; each request judged against the times read before and "
+                "after the call, and every accepted request must fire exactly once at its deadline; non-trivial = grid execution with both accepted and rejected requests, or threaded case in which a "
+                "request overlapped a time change")
+PLAN["C08"] = {"quick": [job("native", "grid", 16, 600), job("native", "threads", 16, 600)],
+               "thorough": [job("native", "grid", 16, 3000), job("native", "threads", 16, 3000), miri("threads", 4, 8, 3000), job("tsan", "threads", 4, 1800, args=["--scale", "0.2"])],
+               "min_evaluations": {"quick": 300, "thorough": 300}, "assumptions": COMMON_ASSUMPTIONS}
+
+LEVEL["C11"] = "fault_enumeration"
+RULES["C11"] = ("matrix: fault kind (panic with &str/String/custom payload at top level, in a sub-model, in init; NoRecipient from a model, a sub-model, an EventSource action; step timeout; "
+                "OutOfSync above tolerance; query-loop deadlock; orphan-mailbox message loss; non-fatal InvalidDeadline, BadQuery, scheduling errors) x trigger (process_event, step, step_until, process) "
+                "x scheduler queue empty/non-empty x every sequence of 1-3 further calls over {step, step_until, process_event, process_query, process} x {ST, MT4}; the quick tier runs all length-1 "
+                "suffixes and a seeded 1/8 sample of longer ones, the thorough tier the complete matrix; each cell is one distinct case")
+PLAN["C11"] = {"quick": [job("native", "matrix", 16, 900)],
+               "thorough": [job("native", "matrix", 16, 3000), miri("matrix", 4, 2, 3000)],
+               "min_evaluations": {"quick": 1000, "thorough": 1000}, "assumptions": COMMON_ASSUMPTIONS + ["deliberate overruns use a 250 ms busy handler against a 40 ms timeout"]}
